@@ -1,6 +1,7 @@
 """Textgrid family: concretize abstract textgrids, execute Textgrid-level calls on the real code, project."""
 import contextlib
 import io
+import os
 import random
 
 from . import common
@@ -88,6 +89,13 @@ def run_vector(vec, emb, pool, eid, recv=None):
     buf = io.StringIO()
     st, pe, ret, rett = "ok", False, None, None
     before_ids = [id(t) for t in recv.tiers]
+    sentinel = b"previous content of the destination \xff\x00\n"
+    if op == "saveTg":
+        import tempfile
+        fd, path = tempfile.mkstemp(prefix="praatio-verif-save-", dir=os.environ.get("TMPDIR", "/tmp"))
+        os.write(fd, sentinel)
+        os.close(fd)
+        a = dict(a, _path=path)
     try:
         with contextlib.redirect_stdout(buf):
             if op == "addTier":
@@ -112,6 +120,15 @@ def run_vector(vec, emb, pool, eid, recv=None):
                 ret = recv.mergeTiers(list(a["names"]), a["preserve"])
             elif op == "newTg":
                 ret = recv.new()
+            elif op == "validateTg":
+                recv.validate(a["mode"])
+            elif op == "saveTg":
+                kw = {}
+                if a["lo"] is not None:
+                    kw["minTimestamp"] = g(a["lo"])
+                if a["hi"] is not None:
+                    kw["maxTimestamp"] = g(a["hi"])
+                recv.save(a["_path"], a["fmt"], a["blanks"], reportingMode=a["mode"], **kw)
             else:
                 raise common.MachineryError("unknown tg op " + op)
     except common.MachineryError:
@@ -129,12 +146,18 @@ def run_vector(vec, emb, pool, eid, recv=None):
         except Exception:  # noqa
             valid = False
         alias = any(id(t) in before_ids for t in ret.tiers)
+    filesame = True
+    if op == "saveTg":
+        with open(a["_path"], "rb") as f:
+            filesame = f.read() == sentinel
+        os.remove(a["_path"])
+        a = {k: (v if v is not None else -1) for k, v in a.items() if k != "_path"}
     ev = {
         "id": eid, "fam": "tg", "op": op, "args": a, "pre": pre, "argt": argtpre, "argtg": argtgpre,
         "st": st, "pe": pe, "ret": proj_tg(pj, ret if isinstance(ret, textgrid.Textgrid) else None),
         "rett": pj.tier(rett) if rett is not None else T.NONE,
         "post": proj_tg(pj, recv), "argtpost": pj.tier(argt), "argtgpost": proj_tg(pj, argtg),
-        "out": buf.getvalue() != "", "each": each, "valid": valid, "alias": alias,
+        "out": buf.getvalue() != "", "each": each, "valid": valid, "alias": alias, "filesame": filesame,
         "arith": True, "exactfp": emb.dyadic, "offgrid": 0, "emb": emb.name,
         "pool": next((k for k, v in T.POOLS.items() if v is pool), "ascii"),
     }
@@ -230,6 +253,22 @@ def rand_edit_vectors(ops, n, seed):
             args = {"names": names[: rng.randint(1, len(names))], "preserve": rng.random() < 0.5}
         elif op == "newTg":
             args = {"k": 0}
+        elif op == "validateTg":
+            args = {"mode": rng.choice(["silence", "warning", "error"])}
+        elif op == "saveTg":
+            firsts = [x.get("s", x.get("t")) for t in pre["tiers"] for x in t["ents"][:1]]
+            lasts = [x.get("e", x.get("t")) for t in pre["tiers"] for x in t["ents"][-1:]]
+            lo = hi = None
+            r = rng.random()
+            if r < 0.25 and firsts:
+                lo = min(firsts) + rng.randint(1, 50)            # an entry falls before the requested span: must raise
+            elif r < 0.4 and lasts:
+                hi = max(lasts) - rng.randint(1, 50)
+            elif r < 0.5:
+                hi = HI + 100
+            args = {"fmt": rng.choice(["short_textgrid", "long_textgrid", "json", "textgrid_json", "bogus"] if rng.random() < 0.3
+                                      else ["short_textgrid", "long_textgrid", "json", "textgrid_json"]),
+                    "blanks": rng.random() < 0.7, "lo": lo, "hi": hi, "mode": rng.choice(["silence", "silence", "error"])}
         else:
             continue
         out.append({"op": op, "args": args, "pre": pre, "argt": T.NONE, "argtg": argtg})
